@@ -8,7 +8,7 @@ for f in sorted(glob.glob(os.path.join(V, "coq", "Properties", "C*.v"))):
     src = open(f).read()
     title = re.search(r"\(\*\s*%s - (.*?)\n" % pid, src)
     thms = re.findall(r"^(Theorem|Example)\s+(\w+)", src, flags=re.M)
-    proofs = dict(re.findall(r"Theorem\s+(\w+).*?Proof\.\s*exact\s+([\w.]+)\.", src, flags=re.S))
+    proofs = dict(re.findall(r"Theorem\s+(\w+).*?Proof\.\s*exact\s+([\w.']+)\.", src, flags=re.S))
     out.append(f"* **{pid}** - {title.group(1).strip() if title else ''}")
     for kind, name in thms:
         if kind == "Theorem":
